@@ -120,3 +120,7 @@ mod test {
         assert_eq!(HasWord::No, mask1.has_word(64));
     }
 }
+
+// verification hook: harness text lives outside the repository (see MANIFEST.hooks)
+#[cfg(any(kani, sudachi_verif))]
+include!(concat!(env!("SUDACHI_VERIF_DIR"), "/analysis__created.rs"));
